@@ -39,6 +39,9 @@ type Engine struct {
 	strIDs    map[string]int
 	constGlobals map[string]string // "pkg.Name" -> string content
 	assumptions map[string]bool
+	smallCache     map[*ssa.Function]bool
+	recordedLocals map[string][]string
+	aliasCache     map[*ssa.Function]map[string]string
 	implCache map[string][]*ssa.Function
 }
 
@@ -174,7 +177,56 @@ func (e *Engine) contractFor(fn *ssa.Function) (string, *Contract) {
 }
 
 func (e *Engine) autoInline(fn *ssa.Function) bool {
-	return fn.Parent() != nil && len(fn.Blocks) > 0
+	if fn.Parent() != nil && len(fn.Blocks) > 0 {
+		return true
+	}
+	return e.smallHelper(fn)
+}
+
+// smallHelper: a function of the module without contract that is small, loop free, has no
+// defers and is not recursive (what "extract a few lines into a helper" produces). Executing
+// its body in place is more precise than an unconstrained result with an inferred frame, and it
+// keeps a proof alive when code under contract is moved into such a helper.
+func (e *Engine) smallHelper(fn *ssa.Function) bool {
+	if fn == nil || len(fn.Blocks) == 0 || len(fn.Blocks) > 12 || isForeign(fn) || fn.Recover != nil {
+		return false
+	}
+	e.mu.Lock()
+	v, cached := e.smallCache[fn]
+	e.mu.Unlock()
+	if cached {
+		return v
+	}
+	ok := true
+	n := 0
+	for _, b := range fn.Blocks {
+		for _, s := range b.Succs {
+			if s.Index <= b.Index && s.Dominates(b) {
+				ok = false // a loop
+			}
+		}
+		for _, ins := range b.Instrs {
+			n++
+			switch x := ins.(type) {
+			case *ssa.Defer, *ssa.Go, *ssa.Select, *ssa.Send, *ssa.Panic:
+				ok = false
+			case ssa.CallInstruction:
+				if c, isFn := x.Common().Value.(*ssa.Function); isFn && c == fn {
+					ok = false
+				}
+			}
+		}
+	}
+	if n > 60 {
+		ok = false
+	}
+	e.mu.Lock()
+	if e.smallCache == nil {
+		e.smallCache = map[*ssa.Function]bool{}
+	}
+	e.smallCache[fn] = ok
+	e.mu.Unlock()
+	return ok
 }
 
 func (e *Engine) fnDisplay(fn *ssa.Function) string {
@@ -609,7 +661,7 @@ func (e *Engine) verifyFunction(key string, ct *Contract) (res *FnResult) {
 	fc.assume(st, app("<=", "0", st.alloc))
 	fc.baseAlloc = map[int]string{0: st.alloc}
 	fc.curSt = st
-	env := &SpecEnv{fc: fc, st: st, pkg: fn.Pkg.Pkg, vars: map[string]TV{}}
+	env := &SpecEnv{fc: fc, st: st, pkg: fn.Pkg.Pkg, vars: map[string]TV{}, alias: e.aliasFor(fn)}
 	for i, p := range fn.Params {
 		v := fc.fresh(p.Type(), "p_"+p.Name())
 		fc.vals[p] = v
@@ -656,7 +708,7 @@ func (e *Engine) verifyFunction(key string, ct *Contract) (res *FnResult) {
 	fc.execBody(fn, st, ct, "", func(rs *State, results []Val, ret *ssa.Return) {
 		nret++
 		fc.curSt = rs
-		penv := &SpecEnv{fc: fc, st: rs, old: fc.pre, pkg: fn.Pkg.Pkg, vars: map[string]TV{}}
+		penv := &SpecEnv{fc: fc, st: rs, old: fc.pre, pkg: fn.Pkg.Pkg, vars: map[string]TV{}, alias: e.aliasFor(fn)}
 		for k, v := range env.vars {
 			penv.vars[k] = v
 		}
